@@ -55,6 +55,16 @@ def read_params():
     else:
         vals["CLAMP"] = False
         notes.append("GIV_randIter constructor initialiser of _size not recognised: %r" % init)
+    # operator= of GIV_randIter and ModularRandIter: does it assign the sampling size (repair 7a77cad)?
+    try:
+        bodies = [re.sub(r"\s+", "", b) for b in re.findall(r"operator=\s*\(const\s+(?:GIV_randIter<Ring,Type>|ModularRandIter<Ring>)&\s*R\)\s*\{(.*?)return\s*\*this;", it, flags=re.S)]
+    except NameError:
+        bodies = []
+    with_size = "if(this!=&R){_givrand=R._givrand;_size=R._size;const_cast<Ring&>(_ring)=R._ring;}"
+    without = "if(this!=&R){_givrand=R._givrand;const_cast<Ring&>(_ring)=R._ring;}"
+    vals["ASSIGN"] = (len(bodies) == 2 and all(b == with_size for b in bodies))
+    if not vals["ASSIGN"] and not (len(bodies) == 2 and all(b == without for b in bodies)):
+        notes.append("operator= of GIV_randIter / ModularRandIter not recognised (modelled as keeping the target's sampling size): %r" % bodies)
     # Poly1Dom<Domain,Dense>::random(g, r, Degree d): statement list of the body
     try:
         pm = open(os.path.join(vf.REPO, "src/library/poly1/givpoly1misc.inl")).read()
@@ -94,8 +104,10 @@ def write_params(vals, flag):
             "Definition giv_randiter_clamps : bool := %s.\n"
             "(* Poly1Dom<Domain,Dense>::random(g, r, Degree d) starts with r.resize((size_t)d.value()+1); (givpoly1misc.inl) *)\n"
             "Definition poly_random_resizes : bool := %s.\n"
+            "(* operator= of GIV_randIter / ModularRandIter assigns the sampling size too (givranditer.h, repair 7a77cad) *)\n"
+            "Definition randiter_assign_copies_size : bool := %s.\n"
             % (vals["MULTIPLYER"], vals["MODULO"], vals["HALFMOD"], "true" if flag else "false", "true" if vals.get("CLAMP") else "false",
-               "true" if vals.get("RESIZE", True) else "false"))
+               "true" if vals.get("RESIZE", True) else "false", "true" if vals.get("ASSIGN", True) else "false"))
     vf.write_if_changed(os.path.join(vf.coq_dir(AREA), "Params.v"), text)
 
 
@@ -338,7 +350,8 @@ def gen_cases(rng, tier, vals, flag):
     dseqs = [["D0", "D3", "D7", "D7", "D2", "D5", "D0", "D1", "D9", "D4", "D4", "D0"],
              ["D8", "L2", "S9", "S2", "Z", "d6", "l1", "s5", "z", "I3", "I0", "D2"],
              ["S12", "Z", "L12", "z", "l12", "d0", "I9", "I1", "s12", "s0", "D1"],
-             ["I5", "D1", "I0", "L7", "I2", "z", "d30", "D29", "S28", "s1", "l0", "D31"]]
+             ["I5", "D1", "I0", "L7", "I2", "z", "d30", "D29", "S28", "s1", "l0", "D31"],
+             ["J4", "D1", "J0", "J9", "I2", "J2", "z", "J6"]]
     for name in POLYS:
         t = RINGS[name]
         for j, ps in enumerate(t["moduli"][:2] + t["moduli"][-1:]):
@@ -424,13 +437,15 @@ def gen_cases(rng, tier, vals, flag):
     for name, t in sorted(RINGS.items()):
         for ps in t["moduli"]:
             q = card(ps)
-            for _ in range(4 if thorough else 2):
-                alphabet = "rcvRnmC" + ("" if t["kind"] == "id" else "A")
+            for kseq in range(5 if thorough else 3):
+                alphabet = "rcvRnmC" + ("" if t["kind"] == "id" else "AS")
                 if name == "mI":
                     continue        # its RandIter draws from GMP's generator: family mii
                 if t["kind"] == "gfq" and q == 2:
                     alphabet = alphabet.replace("n", "").replace("m", "")
                 ops = "".join(rng.choice(alphabet) for _ in range(12)) + "r"
+                if kseq == 0:       # directed, on every run: used iterator copied, assigned over a different one (twice), self-assigned, then N draws
+                    ops = "".join(ch for ch in "rcArcvSRnCrAmSrcvRnr" if ch in alphabet)
                 sizes = [0]
                 if t["kind"] == "gfq":
                     sizes = [0, rng.range(2, q), q, q + 1, 2 * q + 1] if q > 2 else [0, 2, 3, 5]
@@ -449,7 +464,16 @@ def gen_cases(rng, tier, vals, flag):
                     else:
                         ops2 = ops
                     s = rng.choice(good + big[:4])
-                    add(fam="ringseq", ring=name, p=ps, seed=s, size=size, ops=ops2, line="ringseq %s %s %d %d %s" % (name, ps, s, size, ops2))
+                    # the iterator an A step assigns over: another ring object (modulus 3, or 5 when p = 3), seed + 17, and a sampling size
+                    # chosen so that the size it keeps differs from the source's
+                    q2 = 2 if t["kind"] == "gf2" else 0 if t["kind"] == "id" else (5 if str(ps) == "3" else 3)
+                    if t["kind"] == "gfq":
+                        eff = size if 0 < size < q else q
+                        size2 = 2 if eff != 2 else 0
+                    else:
+                        size2 = size + 1 if not (size + 1 > t["rmax"] > 0) else size - 1
+                    add(fam="ringseq", ring=name, p=ps, seed=s, size=size, size2=size2, q2=q2, ops=ops2,
+                        line="ringseq %s %s %d %d %s %d" % (name, ps, s, size, ops2, size2))
     # --- QField<Rational>
     for _ in range(reps):
         for s_ in [1, 2, 5, 31, 64, 65, 128]:
@@ -528,7 +552,7 @@ def model_line(c, out, vals):
         return "ring %s %d %s %d %d %d %d" % (t["kind"], card(c["p"]), c["op"], c["seed"], c["n"], c["size"], t["bits"] or 32)
     if fam == "ringseq":
         t = RINGS[c["ring"]]
-        return "ringseq %s %d %d %d %d %s" % (t["kind"], card(c["p"]), c["seed"], c["size"], t["bits"] or 32, c["ops"])
+        return "ringseq %s %d %d %d %d %s %d %d" % (t["kind"], card(c["p"]), c["seed"], c["size"], t["bits"] or 32, c["ops"], c.get("size2", c["size"]), c.get("q2", card(c["p"])))
     if fam == "ext":
         if out == "TIMEOUT":
             return None
@@ -632,9 +656,10 @@ CALL_FORMS_LEGEND = {
     "ring/<op>": "F.random(g,a) | random_sz = F.random(g,a,size) | nzrandom = F.nonzerorandom(g,a) | nzrandom_sz | iter = RandIter(F,seed,size) drawn through "
                  "random(a), operator()(a), operator()(), random() in turn | nziter = GeneralRingNonZeroRandIter random(a), (a), () | itercopy = copy in mid-stream; "
                  "x 33 ring types (distribution_by_family has the per-type counts); destinations preset to -1 / max / min / 0 / non-integral floats in rotation",
-    "ringseq/<letter>": "on ONE iterator object: r random(a) c operator()(a) v operator()() R random() n/m NonZeroRandIter (and a copy of it) C copy-construct A assign; sampling sizes 0,1,2,q-1,q,q+1,max",
+    "ringseq/<letter>": "on ONE iterator object: r random(a) c operator()(a) v operator()() R random() n/m NonZeroRandIter (and a copy of it) C copy-construct from the used iterator, A ASSIGNED over a used iterator on another ring object / sampling size / seed, S self-assignment; after C and A every draw is also made on the source and compared; sampling sizes 0,1,2,q-1,q,q+1,max",
     "poly/<form>/preset<k>": "Poly1Dom random/nonzerorandom (g,r,Degree) (g,r) (g,r,size) (g,r,b); destination preset 0 empty 1 larger 2 one coefficient 3 same size 4 much larger, not normalised",
-    "polyseq/<letter>": "requests on ONE destination: D/d (Degree) Z/z () S/s (size) L/l (b) of random / nonzerorandom, I = Poly1Dom::RandIter (GIV_randIter<Poly1Dom>) random(r) / operator()(r)",
+    "polyseq/<letter>": "requests on ONE destination: D/d (Degree) Z/z () S/s (size) L/l (b) of random / nonzerorandom, I = Poly1Dom::RandIter (GIV_randIter<Poly1Dom>) random(r) / operator()(r), "
+                        "J = a used RandIter of sampling size 1 ASSIGNED one of size d+1, then drawn (source draws the same)",
     "ext/<op>": "Extension<GFqDom<int64_t>>: random(g,r) random(g,r,s) random(g,r,b) and the nonzerorandom forms into one reused element, sizes s,1,s,s+1,..; iter = GIV_ExtensionrandIter random(e)/operator()(e) + copy",
     "int/<op>/<variant>": "Integer range constructions: variant t/f/d = template <true>/<false>/non-template; lt_I lt_2e lt_2ev lt_u64 ex_2e ex_I ex_u64 ex_T ex_Tv bt_I bt_Iv bt_2e bt_2ev bt_u64 bt_u64v "
                           "bt_R bt_Rv rnd0 nz0 rbool rnd_T rnd_Tv lt_Tv nz_T nz_Tv (v = value-returning; T in int,uint,long,ulong,short,Integer) zr_* = ZRing<Integer>::random/nonzerorandom; "
@@ -737,7 +762,7 @@ def main(tier, replay=None):
                        "model hand-written after the code; tie = correspondence on generated cases incl. GMP request traces"]
     if None in [vals[k] for k in ("MULTIPLYER", "MODULO", "HALFMOD")]:
         chk.broke("cannot read _GIVRAN_MULTIPLYER_/_GIVRAN_MODULO_/_GIVRAN_HALFMOD_ from givrandom.h: %s" % vals)
-        vals = {"MULTIPLYER": 950706376, "MODULO": 2147483647, "HALFMOD": 1073741824, "CLAMP": vals.get("CLAMP", False), "RESIZE": vals.get("RESIZE", True)}
+        vals = {"MULTIPLYER": 950706376, "MODULO": 2147483647, "HALFMOD": 1073741824, "CLAMP": vals.get("CLAMP", False), "RESIZE": vals.get("RESIZE", True), "ASSIGN": vals.get("ASSIGN", True)}
     else:
         write_params(vals, bool(flag))
     chk.notes += pnotes
@@ -887,6 +912,9 @@ def main(tier, replay=None):
                 fail(site, "does not terminate; " + sc, "a value within %d ms" % LIMIT_MS)
                 if mout[i] is not None and mout[i] != "NONE":
                     mcmp = ("TIMEOUT", mout[i])
+            elif out == "ASSIGNED-DIFFERS":
+                fail("GIV_randIter / ModularRandIter operator=", "assigned iterator does not go on like its source",
+                     "after dst = src (Poly1Dom::RandIter of sampling sizes 1 and d+1) both draw the same polynomial", "the two draws differ")
             elif out.startswith("UN") or out.startswith("BAD"):
                 chk.broke("harness rejected its own case %s: %s" % (c["line"], out))
             elif fam == "lcg":
@@ -998,8 +1026,11 @@ def main(tier, replay=None):
                     dz, _, coefs = stp.partition(" ;")
                     deg, size = [int(x) for x in dz.split()]
                     el = parse_elems(coefs)
-                    site = "Poly1Dom::random into a used destination (%s)" % {"D": "Degree", "Z": "default", "S": "size", "L": "like b", "I": "RandIter"}[opn[0].upper()]
-                    klass = "%s; request %d of a sequence; %s" % (c["ring"], k, sc)
+                    site = "Poly1Dom::random into a used destination (%s)" % {"D": "Degree", "Z": "default", "S": "size", "L": "like b", "I": "RandIter", "J": "assigned RandIter"}[opn[0].upper()]
+                    if opn[0] == "J":
+                        site, klass = "GIV_randIter / ModularRandIter operator=", "assigned iterator does not go on like its source"
+                    if opn[0] != "J":
+                        klass = "%s; request %d of a sequence; %s" % (c["ring"], k, sc)
                     if size != want + 1 or deg != want:
                         fail(site, klass, "degree %d" % want, "step %d (%s): degree %d size %d" % (k, opn, deg, size)); break
                     if el[-1][2] or (t["kind"] == "gfq" and el[-1][0] == 0):
@@ -1064,7 +1095,18 @@ def main(tier, replay=None):
                     site, klass = "GIV_randIter<GFqDom>(F, seed, size)", "size > cardinality"
                 if len(el) != len(draws):
                     chk.broke("ringseq: %d values for %d draws: %s" % (len(el), len(draws), c["line"]))
-                for (raw, val, z, cp), ch in zip(el, draws):
+                origin, origins = None, []
+                for ch in c["ops"]:
+                    if ch in "CA":
+                        origin = ch
+                    elif ch in "rcvRnm":
+                        origins.append(origin)
+                for k_, ((raw, val, z, cp), ch) in enumerate(zip(el, draws)):
+                    assigned = (k_ < len(origins) and origins[k_] == "A")
+                    if assigned and ((cp is not None and cp != raw) or not raw_ok(t["raw"], q, raw)):
+                        fail("GIV_randIter / ModularRandIter operator=", "assigned iterator does not go on like its source",
+                             "after a = b (a built on another ring, sampling size %s, other seed, used) the draws of a and b agree and are canonical" % c.get("size2"),
+                             "draw %d: source %s, assigned %d" % (k_, cp, raw)); break
                     if not raw_ok(t["raw"], q, raw):
                         fail(site, klass, "canonical element", "raw %d" % raw); break
                     if ch in "nm" and (z or (t["kind"] in ("gfq", "gf2") and raw == 0)):
